@@ -99,17 +99,28 @@ impl Boudot2000RangeProof {
     where
         H: Digest,
     {
+        // The challenge is a whole digest (not t bits) and the secrets are not bounded by b: x is the
+        // square root of a value scaled by 2^T, r_1 is drawn below 2^s * n and r_2 = r - r_1 * x.
+        // The blinding values are therefore sized from the digest length and from public upper
+        // bounds of the secrets' lengths (never from the secrets themselves, whose length would
+        // otherwise show in the responses).
+        let c_bits = (8 * <H as Digest>::output_size()) as u32;
+        let _ = (x, r_1, r_2, s1, s2);
+        let b_bits = b.significant_bits();
+        let x_bits = t + l + b_bits + 3;
+        let r_1_bits = Self::s + n.significant_bits() + 1;
+        let r_2_bits = (Self::s + 2 * (t + l + 1) + b_bits + n.significant_bits() + 1).max(r_1_bits + x_bits) + 1;
         let omega = rand_int(
             Integer::from(1),
-            Integer::from(2).pow(l + t) * b - Integer::from(1),
+            Integer::from(2).pow(l + c_bits + x_bits) - Integer::from(1),
         );
         let mu_1 = rand_int(
             Integer::from(1),
-            Integer::from(2).pow(l + t + s1) * n - Integer::from(1),
+            Integer::from(2).pow(l + c_bits + r_1_bits) - Integer::from(1),
         );
         let mu_2 = rand_int(
             Integer::from(1),
-            Integer::from(2).pow(l + t + s2) * n - Integer::from(1),
+            Integer::from(2).pow(l + c_bits + r_2_bits) - Integer::from(1),
         );
         let w_1 = (Integer::from(g_1.pow_mod_ref(&omega, n).unwrap())
             * Integer::from(h_1.pow_mod_ref(&mu_1, n).unwrap()))
